@@ -176,6 +176,47 @@ func TestVerifReplayC20Loop(t *testing.T) {
 			any = true
 		}
 	}
+	if strings.Contains(sc.Label, "every-selected-path-is-registered") {
+		// the harness's tree for real: a directory, a file two levels below it, a plain file, all three
+		// selected; real file operations on the deep file must reach the task (inotify is not recursive)
+		deep := filepath.Join(dir, "d", "sub", "f.txt")
+		os.MkdirAll(filepath.Dir(deep), 0o755)
+		os.WriteFile(deep, []byte("x"), 0o644)
+		plain := filepath.Join(dir, "g.txt")
+		os.WriteFile(plain, []byte("x"), 0o644)
+		trace := filepath.Join(dir, "trace.log")
+		tk := task.FromCommands(fmt.Sprintf(`echo "ran [$EventName] [$EventPath]" >> %s`, trace))
+		tk.Name = "wt"
+		w, err := NewWatcher("w", events, []string{filepath.Join(dir, "d"), deep, plain}, nil, tk)
+		if err != nil {
+			t.Fatal(err)
+		}
+		r, _ := runner.NewTaskRunner()
+		r.Stdout, r.Stderr = &strings.Builder{}, &strings.Builder{}
+		go w.Run(r)
+		time.Sleep(1500 * time.Millisecond)
+		producible := !any || sub[1] || sub[4] || sub[3]
+		if !producible {
+			fmt.Println("REPLAY: not-replayable (no subscribed event type can be produced on an existing file)")
+			return
+		}
+		f, _ := os.OpenFile(deep, os.O_APPEND|os.O_WRONLY, 0o644)
+		f.WriteString("y")
+		f.Close()
+		time.Sleep(1500 * time.Millisecond)
+		os.Chmod(deep, 0o600)
+		time.Sleep(1500 * time.Millisecond)
+		os.Rename(deep, deep+".moved")
+		time.Sleep(3 * time.Second)
+		raw, _ := os.ReadFile(trace)
+		fmt.Printf("REPLAY: selected %q; after write, chmod and rename of the deep file the task printed %q\n", w.paths, string(raw))
+		if !strings.Contains(string(raw), "["+deep+"]") {
+			fmt.Println("REPLAY: reproduced: file operations on a selected path never ran the task (the path is not observed)")
+		} else {
+			fmt.Println("REPLAY: not-reproduced (the selected path is observed)")
+		}
+		return
+	}
 	n := int(sc.Args[0])
 	var files []string
 	for e := 0; e < 4; e++ {
